@@ -199,6 +199,10 @@ def judge_stats(entry, spelling, kind):
     s2 = enc_ok[-1] if enc_ok else ''
     text = nl.join(['--- a', '+++ b', '@@ -1,2 +1,2 @@',
                     ' ctx' + s1 + 'tail', '-old' + s2 + 'x', '+new']) + nl
+
+    if kind == 'dos':
+        # a bare LF inside a CRLF-terminated line is part of that line
+        text = text.replace('+new', '+new\nstill the same line')
     variants = [('as encoded', text.encode(canon))]
     bom = ''.encode(canon)
 
